@@ -179,6 +179,18 @@ class OpsMixin(object):
   def truth(self, st, v):
     """[(state, z3 Bool)]"""
     if isinstance(v, VVal):
+      if self.views(st, v) is None and not isinstance(st.tags.get(v.t.get_id()), (str, tuple)):
+        # value of unknown type: truthiness as one term (scalars by their rules, objects by an uninterpreted predicate)
+        t = v.t
+        tr = z3.Function('truthy_object', z3.IntSort(), z3.BoolSort())
+        term = z3.If(Val.is_VN(t), z3.BoolVal(False),
+               z3.If(Val.is_VB(t), Val.b(t),
+               z3.If(Val.is_VI(t), Val.i(t) != 0,
+               z3.If(Val.is_VF(t), z3.Not(vv.f_iszero(Val.f(t))),
+               z3.If(Val.is_VS(t), z3.Length(Val.s(t)) > 0,
+               z3.If(Val.is_VY(t), z3.Length(Val.y(t)) > 0,
+               z3.If(Val.is_VR(t), tr(Val.r(t)), z3.BoolVal(True))))))))
+        return [(st, term)]
       out = []
       for s, tv in self.resolve(st, v):
         out.extend(self.truth(s, tv))
@@ -569,6 +581,8 @@ class OpsMixin(object):
 
   def unary(self, st, op, v):
     out = []
+    if op == 'Not':
+      return [(s2, VBool(z3.Not(b))) for s2, b in self.truth(st, v)]
     for s, r in self.resolve(st, v):
       if op == 'Not':
         for s2, b in self.truth(s, r):
